@@ -235,6 +235,12 @@ def run_task(modname, hid, case_idx, tier, seed, prefixes=None, split_depth=None
                     elif r == 'sat':
                         o.update(verdict='cex', how='inproc', time=round(dt, 3),
                                  inputs=model_inputs(m, ctx), funcs=model_funcs(m))
+                        if os.environ.get('SYMOPT_DEBUG_CEX'):
+                            print('DEBUG-CEX', name, rec['trace'], o['inputs'], flush=True)
+                            for i_, l_ in enumerate(eng.pc):
+                                print('   pc', i_, m.eval(l_, model_completion=True), l_.sexpr()[:260].replace('\n', ' '), flush=True)
+                            for d_ in m.decls():
+                                print('   model', d_, m[d_], flush=True)
                     else:
                         rungs = [('defs', smt2_text(eng.defs + [neg])),
                                  ('defs+pc', smt2_text(eng.defs + eng.pc + [neg])),
